@@ -242,11 +242,20 @@ def gen_schedule(rng, quick=True, rules=True, allow_weird=True):
             # bias several controls onto the same target / same instant
             tgt = rng.randrange(NT) if rng.random() < 0.6 else 0
             cond = gen_cond(False)
-            if controls and rng.random() < 0.25:
+            if controls and rng.random() < 0.4:
                 prev = rng.choice(controls)
                 if prev["kind"] == "P":
                     cond = prev["cond"]
-                    tgt = prev["then"][0][0]
+                    if rng.random() < 0.6:
+                        tgt = prev["then"][0][0]
+                    if rng.random() < 0.5:
+                        # a DIFFERENT instant inside the same hydraulic step (usually): the two controls are then served in
+                        # one pass of the pre-solve loop, in time order, whatever their priorities
+                        off = rng.choice([-1, 1]) * rng.randint(1, max(1, hyd - 1))
+                        if cond[0] == "sim":
+                            cond = ("sim", cond[1], max(0, cond[2] + off), cond[3])
+                        else:
+                            cond = ("tod", cond[1], (cond[2] + off) % 86400) + tuple(cond[3:])
             controls.append({"id": i, "kind": "P", "prio": prio, "cond": cond, "then": [(tgt, rng.randint(0, 1))], "else": []})
     init = {str(i): rng.randint(0, 1) for i in range(NT)}
     return {"hyd": hyd, "rule": rule, "report": report, "duration": duration, "start_clock": start_clock,
